@@ -26,7 +26,7 @@ ASSUMPTIONS = [
     "distance(p,q) with no line used by p or q is 0/0: NaN or 0.0 accepted, an exception is not",
     "an explicitly empty `platforms=` collection is not exercised",
 ]
-NAMES3 = ["A", "B", "C"]
+NAMES3 = ["cpu", "cpu-avx512", "gpu"]     # one name is a substring of another on purpose
 VALUES = [None, 0, 1, 2, 5]
 
 
@@ -44,7 +44,7 @@ def required_cells(tier):
     return ["undefined:coverage-no-lines", "undefined:coverage-no-platforms", "undefined:divergence-lt2",
             "undefined:distance-empty-union", "row:empty-set", "row:zero-count", "shared-only-platform",
             "arg:subset-size-1", "arg:subset-size-k-1", "meta:rename", "meta:reorder", "meta:scale",
-            "class:enum", "class:random"]
+            "class:enum", "class:random", "names:substring-related"]
 
 
 # ---------------------------------------------------------------- oracle --
@@ -122,7 +122,7 @@ def enum_tables(tier, shard, nshards):
     """Yield (rows) lists [(tuple(sorted set)), count] for this shard."""
     idx = 0
     # <=2 platforms: complete
-    for names in (["A"], ["A", "B"]):
+    for names in (["cpu"], ["cpu", "cpu-avx512"]):
         subs = all_subsets(names)
         for vals in itertools.product(VALUES, repeat=len(subs)):
             idx += 1
@@ -154,6 +154,8 @@ def random_tables(ctx):
         names = [f"p{j}" for j in range(k)]
         if rng.random() < 0.3:
             names = [rng.choice(["cpu", "gpu", "x", "Z", "a b", "é", "0"]) + str(j) for j in range(k)]
+        elif rng.random() < 0.4:
+            names = ["p" * (j + 1) for j in range(k)]       # p, pp, ppp: every name is a substring of the next
         nrows = rng.randint(0, min(2 ** k, 14))
         rows = {}
         for _ in range(nrows):
@@ -200,6 +202,8 @@ def check_table(rows, report, watch, rng):
     for p in ps:
         if all(len(k) > 1 for k in table if p in k):
             cells.add("shared-only-platform")
+        if any(p != q and p in q for q in ps):
+            cells.add("names:substring-related")
 
     def expect(metric, args, res, exp, alt_ok=()):
         st, val = res
